@@ -531,6 +531,15 @@ def r06_13(ctx):
             ctx.ok(construct, f.loc(c))
     if n_conv < 3:
         raise AnalysisError(f"only {n_conv} conversions of the option's own text in get_json_values")
+    # null stands for `a number option without a value` only: a string option's empty text is the value "" in every other format
+    nulls = [st for st in ast.walk(f.node) if isinstance(st, ast.Assign) and isinstance(st.value, ast.Constant) and st.value.value is None
+             and any(isinstance(t, ast.Name) for t in st.targets)]
+    for st in nulls:
+        gs = fl.guards_at(st) or set()
+        construct = "get_json_values.<locals>.write_node/null only for a number option without a value"
+        reach = [ty for ty in ("STRING", "BOOL") if not facts_imply(gs, "False_", fixed=lambda leaf, ty=ty: (type_atom_truth(repo, "kconfgen.core", leaf, ty) if leaf != "False_" else False))]
+        (ctx.bad(construct, f"`{ast.unparse(st)}` is reachable for a {reach[0]} option (guards {sorted(gs)}): the empty string is written as \"\" to sdkconfig, header and "
+                 "CMake but as null to JSON", f.loc(st)) if reach else ctx.ok(construct, f.loc(st)))
 
 
 def r06_14(ctx):
